@@ -3,7 +3,7 @@ constructor, and the Gallina term of Gates/Families.v (units computed from the s
 import cmath, math
 import numpy as np
 
-SPECIAL_EXP = [0.0, 0.25, -0.25, 0.5, -0.5, 1.0, -1.0, 2.0, 3.0, 1.5, 2.5, 0.75, 4.0]
+SPECIAL_EXP = [0.0, 0.25, -0.25, 0.5, -0.5, 1.0, -1.0, 2.0, 3.0, 1.5, 2.5, 0.75, 4.0, -1.5, -2.0, -2.5, 3.5]
 SPECIAL_SHIFT = [0.0, -0.5, 0.25, 1.0, 0.5]
 
 
@@ -342,3 +342,49 @@ def draw(rng, fam, depth=0):
 COQ_HEADER = ('From Coq Require Import PrimFloat List ZArith Bool.\n'
               'From VF Require Import Base.RingOps Base.Mat Base.Tensor Base.FloatInst Base.Harness Gates.Families.\n'
               'Import ListNotations.\nOpen Scope float_scope.\n')
+
+
+EXP_LIKE = ('e', 'x', 'z', 'a', 'p', 's')
+ANGLE_LIKE = ('rads', 'theta', 'phi', 'zeta', 'chi', 'gamma')
+SPECIAL_ANGLES = [0.0, math.pi / 2, math.pi, -math.pi / 2, -math.pi, math.pi / 4, 2 * math.pi, 3 * math.pi, -3 * math.pi / 2]
+
+
+def special_grid(rng, fam):
+    """For each exponent-like / angle-like parameter of the family: one instance per special value of that parameter
+    (the other parameters drawn as usual) — so every fast path keyed on a special value is visited in every run."""
+    out = []
+    base = draw(rng, fam)
+    for name in list(base.p):
+        vals = SPECIAL_EXP if name in EXP_LIKE else SPECIAL_ANGLES if name in ANGLE_LIKE else None
+        if vals is None or not isinstance(base.p[name], float):
+            continue
+        for v in vals:
+            g = draw(rng, fam)
+            if g.shape != base.shape or name not in g.p:
+                continue
+            g.p[name] = v
+            out.append(g)
+    return out
+
+
+PAIR_EXP = [0.0, 1.0, -1.0, 0.5, -0.5, 2.0]
+PAIR_ANGLES = [0.0, math.pi, -math.pi, math.pi / 2]
+
+
+def pair_grid(rng, fam):
+    """Instances where TWO parameters sit on special values at once (fast paths guarded by a conjunction)."""
+    import itertools
+    out = []
+    base = draw(rng, fam)
+    names = [n for n in base.p if isinstance(base.p[n], float) and (n in EXP_LIKE or n in ANGLE_LIKE)]
+    for n1, n2 in itertools.combinations(names, 2):
+        v1s = PAIR_EXP if n1 in EXP_LIKE else PAIR_ANGLES
+        v2s = PAIR_EXP if n2 in EXP_LIKE else PAIR_ANGLES
+        for v1 in v1s:
+            for v2 in v2s:
+                g = draw(rng, fam)
+                if g.shape != base.shape:
+                    continue
+                g.p[n1], g.p[n2] = v1, v2
+                out.append(g)
+    return out
